@@ -5,8 +5,14 @@ import re
 import sys
 import time
 
+import tempfile
+
 import vlib
 from vlib import Undecided, log
+
+
+def tempfile_dir(tag):
+    return tempfile.mkdtemp(prefix="mina-verif-%s." % tag, dir=os.environ.get("TMPDIR", "/tmp"))
 
 VERIF = vlib.VERIF
 REGISTRY = os.path.join(VERIF, "contracts", "registry.json")
@@ -137,27 +143,7 @@ def run_check(pid, tier, seed, only=None, keep=False):
             functions += verus_report.get("functions", [])
         # ---------------- Route K
         if kani_sel:
-            groups = {}
-            for h in kani_sel:
-                key = (h["pkg"], bool(h.get("tests")), tuple(h.get("flags") or ()), tuple(h.get("omit_contracts") or ()))
-                groups.setdefault(key, []).append(h)
-            scratches = {}
-            for (pkg, tests, flags, omit), hs in groups.items():
-                if omit not in scratches:
-                    sc, sr = vlib.make_scratch("k")
-                    scratch_dirs.append(sc)
-                    scratches[omit] = (sr, vlib.inject_kani(sr, omit_contracts=omit))
-                srepo, inj_g = scratches[omit]
-                if inj is None or not omit:
-                    inj = inj_g
-                for f in inj_g["functions"]:
-                    if f not in functions:
-                        functions.append(f)
-                to = max(int(h.get("timeout", 300)) for h in hs)
-                if tier == "thorough":
-                    to *= 3
-                out = vlib.run_kani(srepo, pkg, [h["harness"] for h in hs], timeout_s=to, jobs=14, tests=tests,
-                                    extra=["--no-assert-contracts"] + list(flags))
+            def handle_results(hs, out, srepo):
                 for h in hs:
                     h["_srepo"] = srepo
                     res = out["results"].get(h["harness"])
@@ -192,6 +178,46 @@ def run_check(pid, tier, seed, only=None, keep=False):
                         if f:
                             known_lines.append("KNOWN-FINDING: property=%s %s" % (pid, f["what"]))
                             rec["known_finding"] = f["id"]
+            groups = {}
+            for h in kani_sel:
+                key = (h["pkg"], bool(h.get("tests")), tuple(h.get("flags") or ()), tuple(h.get("omit_contracts") or ()))
+                groups.setdefault(key, []).append(h)
+            scratches = {}
+            for (pkg, tests, flags, omit), hs in groups.items():
+                if pkg == "bevy_extract":
+                    # L-BEVY: the extracted std-only crate (tools/extract_bevy.py), rebuilt from /repo each run
+                    import extract_bevy
+                    if "bevy" not in scratches:
+                        sc = tempfile_dir("b")
+                        scratch_dirs.append(sc)
+                        cdir, brep = extract_bevy.write_crate(sc)
+                        scratches["bevy"] = (cdir, {"functions": brep["functions"], "added_lines": 0, "rewrites": brep["edits"], "files": ["bevy_extract/src/lib.rs"]})
+                    srepo, inj_g = scratches["bevy"]
+                    for f in inj_g["functions"]:
+                        if f not in functions:
+                            functions.append(f)
+                    if inj is None:
+                        inj = inj_g
+                    to = max(int(h.get("timeout", 300)) for h in hs)
+                    out = vlib.run_kani(srepo, None, [h["harness"] for h in hs], timeout_s=to, jobs=8, extra=list(flags))
+                    handle_results(hs, out, srepo)
+                    continue
+                if omit not in scratches:
+                    sc, sr = vlib.make_scratch("k")
+                    scratch_dirs.append(sc)
+                    scratches[omit] = (sr, vlib.inject_kani(sr, omit_contracts=omit))
+                srepo, inj_g = scratches[omit]
+                if inj is None or not omit:
+                    inj = inj_g
+                for f in inj_g["functions"]:
+                    if f not in functions:
+                        functions.append(f)
+                to = max(int(h.get("timeout", 300)) for h in hs)
+                if tier == "thorough":
+                    to *= 3
+                out = vlib.run_kani(srepo, pkg, [h["harness"] for h in hs], timeout_s=to, jobs=14, tests=tests,
+                                    extra=["--no-assert-contracts"] + list(flags))
+                handle_results(hs, out, srepo)
             # ------------ failures -> counterexample -> native replay
             for rec in [r for r in violations if r["engine"] == "kani"]:
                 h = next(x for x in kani_sel if x["id"] == rec["id"])
@@ -357,6 +383,9 @@ def write_evidence(ev, pid, tier, seed, per, functions, inj, verus_report, pinfo
         "known_findings_reported": known_lines,
         "violations": [{"id": r["id"], "failed_checks": r.get("failed_checks"), "native_confirmed": r.get("native_confirmed"), "replay": r.get("replay_file")} for r in violations],
     }
+    if pinfo.get("level"):
+        ev["level"] = pinfo["level"]
+        ev["coverage"]["explanation"] = pinfo.get("explanation", "") + " Bounded obligations discharged: %d of %d; unbounded obligations discharged: %d of %d." % (n_dis_b, n_obl_b, n_dis, n_obl)
     ev["assumptions"] = list(pinfo.get("assumptions", []))
     if verus_report:
         ev["assumptions"] += verus_report.get("assumptions", [])
